@@ -187,7 +187,17 @@ where
             .problem_def
             .as_ref()
             .ok_or(PlanningError::PlannerUninitialised)?;
+        let vc = self
+            .validity_checker
+            .as_ref()
+            .ok_or(PlanningError::PlannerUninitialised)?;
         let goal = &pd.goal;
+
+        // The root of the tree is never passed through `check_motion`, so it has to be validated
+        // here.
+        if !vc.is_valid(&pd.start_states[0]) {
+            return Err(PlanningError::InvalidStartState);
+        }
 
         let start_time = Instant::now();
         let mut rng = self
